@@ -38,10 +38,10 @@ func canonStable(p interface{}) string {
 }
 
 func usesNoCoding(p interface{}) bool {
-	if _, ok := p.(*pdu.ReplaceSM); ok {
+	v := reflect.ValueOf(p).Elem()
+	if observePrepare(v.Type()).isReplace {
 		return false
 	}
-	v := reflect.ValueOf(p).Elem()
 	for i := 0; i < v.NumField(); i++ {
 		if m, ok := v.Field(i).Interface().(pdu.ShortMessage); ok && m.DataCoding == coding.NoCoding {
 			return true
@@ -56,6 +56,26 @@ func rawTLVs(r *Rng) []byte {
 	var b []byte
 	n := r.Pick([]int{0, 1, 2, 3, 5, 9})
 	tags := []uint16{0x0005, 0x0204, 0x0424, 0x1400, 0x0005, 0x0001, 0xFFFF, uint16(r.U64()), genTag(r), genTag(r), 0x020C, 0x020E, 0x020F}
+	put := func(tag uint16, v []byte) {
+		b = append(b, byte(tag>>8), byte(tag), byte(len(v)>>8), byte(len(v)))
+		b = append(b, v...)
+	}
+	if r.Intn(5) == 0 {
+		// TLVs that belong together, all present, with the lengths the standard gives them or an empty value in one of them:
+		// segmentation (sar_msg_ref_num 2, sar_total_segments 1, sar_segment_seqnum 1), ports (2, 2), payload type + payload
+		switch r.Intn(3) {
+		case 0:
+			put(0x020C, biasedBytes(r, 2))
+			put(0x020E, biasedBytes(r, r.Pick([]int{1, 1, 0})))
+			put(0x020F, biasedBytes(r, r.Pick([]int{1, 1, 0})))
+		case 1:
+			put(0x020A, biasedBytes(r, r.Pick([]int{2, 2, 0, 1})))
+			put(0x020B, biasedBytes(r, r.Pick([]int{2, 2, 0, 1})))
+		default:
+			put(0x0019, biasedBytes(r, r.Pick([]int{1, 0})))
+			put(0x0424, biasedBytes(r, r.Pick([]int{0, 1, 20})))
+		}
+	}
 	for i := 0; i < n; i++ {
 		tag := tags[r.Intn(len(tags))] // duplicates and unsorted order on purpose; standard tags, the segmentation triple together
 		l := r.Pick([]int{0, 0, 1, 2, 7, 30})
@@ -63,7 +83,32 @@ func rawTLVs(r *Rng) []byte {
 		binary.BigEndian.PutUint16(h[:], tag)
 		binary.BigEndian.PutUint16(h[2:], uint16(l))
 		b = append(b, h[:]...)
-		b = append(b, r.Bytes(l)...)
+		b = append(b, biasedBytes(r, l)...)
+	}
+	return b
+}
+
+// biasedBytes: value octets as other implementations send them — leading zero octets (small integers in
+// wide fields), all zeros, all ones, counting sequences — besides uniform noise.
+func biasedBytes(r *Rng, l int) []byte {
+	b := r.Bytes(l)
+	switch r.Intn(6) {
+	case 0:
+		for i := range b {
+			b[i] = 0
+		}
+	case 1:
+		for i := 0; i < len(b) && i <= r.Intn(3); i++ {
+			b[i] = 0
+		}
+	case 2:
+		for i := range b {
+			b[i] = 0xFF
+		}
+	case 3:
+		for i := range b {
+			b[i] = byte(i + 1)
+		}
 	}
 	return b
 }
@@ -164,6 +209,51 @@ func handBody(r *Rng, multi bool) []byte {
 	return b
 }
 
+// stdIEFrames: minimal submit_sm / deliver_sm / submit_multi frames (UDHI set) carrying one or two standard
+// information elements whose fields take the values 0, 1, 0xFF in every position.
+func stdIEFrames() [][]byte {
+	vals := []byte{0, 1, 0xFF}
+	var ies [][]byte
+	var rec func(id byte, n int, cur []byte)
+	rec = func(id byte, n int, cur []byte) {
+		if len(cur) == n {
+			ies = append(ies, append([]byte{id, byte(n)}, cur...))
+			return
+		}
+		for _, v := range vals {
+			rec(id, n, append(append([]byte(nil), cur...), v))
+		}
+	}
+	rec(0x00, 3, nil)
+	rec(0x08, 4, nil)
+	rec(0x04, 2, nil)
+	rec(0x24, 1, nil)
+	rec(0x25, 1, nil)
+	for _, hi := range vals { // 16-bit ports: high octets only
+		for _, hi2 := range vals {
+			ies = append(ies, []byte{0x05, 4, hi, 0x37, hi2, 0x38})
+		}
+	}
+	var out [][]byte
+	for k, ie := range ies {
+		id := []uint32{4, 5, 0x21}[k%3]
+		sb := (&specBuf{}).cstr("").addr(1, 1, "7")
+		if id == 0x21 {
+			sb.i1(1).i1(1).addr(1, 1, "8")
+		} else {
+			sb.addr(1, 1, "8")
+		}
+		udh := append([]byte(nil), ie...)
+		if k%5 == 4 {
+			udh = append(udh, 0x24, 1, 0) // a second element behind it
+		}
+		msg := []byte("hi")
+		sb.i1(0x40).i1(0).i1(0).cstr("").cstr("").i1(0).i1(0).i1(4).i1(0).i1(byte(1 + len(udh) + len(msg))).i1(byte(len(udh))).raw(udh).raw(msg)
+		out = append(out, specFrame(id, uint32(1+k), sb.b))
+	}
+	return out
+}
+
 func corrC13(r *Run) {
 	r.Import("Model.PduRun")
 	r.PerShard(60)
@@ -176,6 +266,79 @@ func corrC13(r *Run) {
 	caseBudget := r.N(400, 6000)
 	vol := &pduVolume{}
 	defer vol.diff(r)
+	reencode := func(frame []byte, bucket string, wantCase bool) {
+		r.SetReplay(replayReencode(frame))
+		o := readOnce(&chunkReader{data: frame, sched: []int{len(frame)}})
+		if o.Kind != "ok" {
+			r.Count(fmt.Sprintf("%x", frame), false, bucket+"/rejected")
+			return
+		}
+		in := fmt.Sprintf("reencode %x", frame)
+		if len(in) > 3000 {
+			in = "reencode " + shortHex(frame)
+		}
+		if usesNoCoding(o.PDU) {
+			r.Count(fmt.Sprintf("%x", frame), false, bucket+"/reserved-data_coding")
+			return
+		}
+		decodedTerm := coqValue(o.PDU)
+		id := uint32(reflect.ValueOf(o.PDU).Elem().Field(0).Interface().(pdu.Header).CommandID)
+		_, err, w, panicked, pmsg := marshalRec(o.PDU)
+		if panicked {
+			r.Fail("reencode/marshal-panic", "Marshal panicked on a decoded PDU", in, pmsg, "a value or an error")
+			return
+		}
+		if err == nil && len(w.calls) == 1 {
+			vol.remarshal(frame, "ok "+hexOrDash(w.calls[0]))
+		} else {
+			vol.remarshal(frame, "err")
+		}
+		// model: the decoder on this (possibly non-canonical) frame
+		if wantCase && caseBudget > 0 && len(frame) < 3000 {
+			caseBudget--
+			want := "(Err EOther)"
+			if err == nil && len(w.calls) == 1 {
+				want = "(Ok " + coqHex(w.calls[0]) + ")"
+			}
+			r.Case("unmarshal+marshal "+shortHex(frame),
+				fmt.Sprintf("beq_ofvals (unmarshal %s %s) (Ok %s) && beq_obytes (marshal %s %s) %s",
+					layoutRef(id), coqHex(frame), decodedTerm, layoutRef(id), decodedTerm, want))
+		}
+		if err != nil || len(w.calls) != 1 {
+			r.Count(fmt.Sprintf("%x", frame), false, bucket+"/marshal-refuses")
+			return // the property is conditional on Marshal accepting the decoded value
+		}
+		b1 := w.calls[0]
+		r.Count(fmt.Sprintf("%x", frame), true, bucket+"/re-encoded")
+		if len(r.Samples) < 4 {
+			r.Sample(map[string]interface{}{"class": bucket, "frame": shortHex(frame), "re_encoded": shortHex(b1)})
+		}
+		o2 := readOnce(&chunkReader{data: b1, sched: []int{len(b1)}})
+		if o2.Kind != "ok" {
+			r.Fail("reencode/second-decode-"+o2.Kind, "ReadPDU does not accept Marshal's encoding of a PDU it decoded", in,
+				fmt.Sprintf("re-encoded=%s -> %s err=%v", shortHex(b1), o2.Kind, o2.Err), "decodes to an equal value")
+			return
+		}
+		if canonStable(o2.PDU) != canonStable(o.PDU) || reflect.TypeOf(o2.PDU) != reflect.TypeOf(o.PDU) {
+			r.Fail("reencode/value-changed", "decoding the re-encoded frame gives a different value", in,
+				canonStable(o2.PDU), canonStable(o.PDU))
+			return
+		}
+		_, err2, w2, panicked2, _ := marshalRec(o2.PDU)
+		if panicked2 || err2 != nil || len(w2.calls) != 1 || !bytes.Equal(w2.calls[0], b1) {
+			got := "error"
+			if err2 == nil && !panicked2 && len(w2.calls) == 1 {
+				got = shortHex(w2.calls[0])
+			}
+			r.Fail("reencode/bytes-changed", "encoding the re-decoded value gives different octets", in, got, shortHex(b1))
+		}
+		}
+	// deterministic corpus: every standard information element, well formed, with its fields on 0 / 1 / 0xFF,
+	// hand-laid into submit_sm, deliver_sm and submit_multi (an encoder that rewrites elements it "understands"
+	// is only reached by these)
+	for k, f := range stdIEFrames() {
+		reencode(f, "std-ie", k%6 == 0)
+	}
 	for i := 0; i < n; i++ {
 		var frame []byte
 		bucket := ""
@@ -229,71 +392,7 @@ func corrC13(r *Run) {
 		if len(frame) > 65536 {
 			continue
 		}
-		r.SetReplay(replayReencode(frame))
-		o := readOnce(&chunkReader{data: frame, sched: []int{len(frame)}})
-		if o.Kind != "ok" {
-			r.Count(fmt.Sprintf("%x", frame), false, bucket+"/rejected")
-			continue
-		}
-		in := fmt.Sprintf("reencode %x", frame)
-		if len(in) > 3000 {
-			in = "reencode " + shortHex(frame)
-		}
-		if usesNoCoding(o.PDU) {
-			r.Count(fmt.Sprintf("%x", frame), false, bucket+"/reserved-data_coding")
-			continue
-		}
-		decodedTerm := coqValue(o.PDU)
-		id := uint32(reflect.ValueOf(o.PDU).Elem().Field(0).Interface().(pdu.Header).CommandID)
-		_, err, w, panicked, pmsg := marshalRec(o.PDU)
-		if panicked {
-			r.Fail("reencode/marshal-panic", "Marshal panicked on a decoded PDU", in, pmsg, "a value or an error")
-			continue
-		}
-		if err == nil && len(w.calls) == 1 {
-			vol.remarshal(frame, "ok "+hexOrDash(w.calls[0]))
-		} else {
-			vol.remarshal(frame, "err")
-		}
-		// model: the decoder on this (possibly non-canonical) frame
-		if caseBudget > 0 && len(frame) < 3000 {
-			caseBudget--
-			want := "(Err EOther)"
-			if err == nil && len(w.calls) == 1 {
-				want = "(Ok " + coqHex(w.calls[0]) + ")"
-			}
-			r.Case("unmarshal+marshal "+shortHex(frame),
-				fmt.Sprintf("beq_ofvals (unmarshal %s %s) (Ok %s) && beq_obytes (marshal %s %s) %s",
-					layoutRef(id), coqHex(frame), decodedTerm, layoutRef(id), decodedTerm, want))
-		}
-		if err != nil || len(w.calls) != 1 {
-			r.Count(fmt.Sprintf("%x", frame), false, bucket+"/marshal-refuses")
-			continue // the property is conditional on Marshal accepting the decoded value
-		}
-		b1 := w.calls[0]
-		r.Count(fmt.Sprintf("%x", frame), true, bucket+"/re-encoded")
-		if i < 10 && len(r.Samples) < 4 {
-			r.Sample(map[string]interface{}{"class": bucket, "frame": shortHex(frame), "re_encoded": shortHex(b1)})
-		}
-		o2 := readOnce(&chunkReader{data: b1, sched: []int{len(b1)}})
-		if o2.Kind != "ok" {
-			r.Fail("reencode/second-decode-"+o2.Kind, "ReadPDU does not accept Marshal's encoding of a PDU it decoded", in,
-				fmt.Sprintf("re-encoded=%s -> %s err=%v", shortHex(b1), o2.Kind, o2.Err), "decodes to an equal value")
-			continue
-		}
-		if canonStable(o2.PDU) != canonStable(o.PDU) || reflect.TypeOf(o2.PDU) != reflect.TypeOf(o.PDU) {
-			r.Fail("reencode/value-changed", "decoding the re-encoded frame gives a different value", in,
-				canonStable(o2.PDU), canonStable(o.PDU))
-			continue
-		}
-		_, err2, w2, panicked2, _ := marshalRec(o2.PDU)
-		if panicked2 || err2 != nil || len(w2.calls) != 1 || !bytes.Equal(w2.calls[0], b1) {
-			got := "error"
-			if err2 == nil && !panicked2 && len(w2.calls) == 1 {
-				got = shortHex(w2.calls[0])
-			}
-			r.Fail("reencode/bytes-changed", "encoding the re-decoded value gives different octets", in, got, shortHex(b1))
-		}
+		reencode(frame, bucket, true)
 	}
 	// determinism: same value, maps rebuilt in different insertion orders, marshalled repeatedly
 	nd := r.N(150, 3000)
